@@ -857,16 +857,16 @@ def run_check(ctx, prop, props_module, level):
         plan = []
         for exe, name, share in ((exe_dbg, "assert+asan", 0.6), (exe_rel, "shipped(NDEBUG)+asan", 0.4)):
             cases = []
-            counts = [("tiny", 1200 if quick else 12000), ("small", 900 if quick else 8000),
-                      ("mid", 400 if quick else 2500), ("tailbuf", 160 if quick else 900),
-                      ("burst", 140 if quick else 1500)]
+            counts = [("tiny", 800 if quick else 12000), ("small", 600 if quick else 8000),
+                      ("mid", 300 if quick else 2500), ("tailbuf", 120 if quick else 900),
+                      ("burst", 100 if quick else 1500)]
             for cls, n in counts:
                 for _ in range(int(n * share)):
                     cases.append(gen_case(rng, cls))
             for _ in range(0 if quick else int(40 * share)):
                 cases.append(gen_case(rng, "huge", chunk_style=rng.choice(["whole", "around", "random"]),
                                       allow_beyond=True, nstreams=1))
-            for _ in range(int((400 if quick else 2500) * share)):
+            for _ in range(int((300 if quick else 2500) * share)):
                 cases.append(gen_case(rng, rng.choice(["tiny", "small", "small", "mid"]),
                                       spoil_kind=rng.choice(["nul", "magic", "magic", "abandon"]), allow_beyond=True))
             if name.startswith("assert"):
